@@ -172,9 +172,9 @@ var c11Methods = []string{"GET", "POST", "HEAD", "PUT", "BREW"}
 
 func c11Paths(thorough bool) []string {
 	if thorough {
-		return pathsOver([]string{"g", "a", "v"}, 3, []string{"/", "/g/g/g/a", "/g/v/g/a", "/g/g/g/v", "/g/g/g/g/a", "/g/g/g/g/v"})
+		return pathsOver([]string{"g", "a", "v"}, 3, []string{"/", "/g/g/g/a", "/g/v/g/a", "/g/g/g/v", "/g/g/g/g/a", "/g/g/g/g/v", "/g-x", "/g/-x", "/v-x", "/g.a", "/g/.a", "/ga", "/va", "/g-x/a", "/g/-x/a", "/g.v/a", "/ga/a", "/g/a/a"})
 	}
-	return append(pathsOver([]string{"g", "a", "v"}, 2, nil), "/g/g/a", "/g/v/a", "/v/g/a", "/g/g/v", "/v/v/v", "/", "/g/g/g/a", "/g/g/g/v", "/g/g/g/g/a", "/g/g/g/g/v")
+	return append(pathsOver([]string{"g", "a", "v"}, 2, nil), "/g/g/a", "/g/v/a", "/v/g/a", "/g/g/v", "/v/v/v", "/", "/g/g/g/a", "/g/g/g/v", "/g/g/g/g/a", "/g/g/g/g/v", "/g-x", "/g/-x", "/v-x", "/g.a", "/g/.a", "/ga", "/va", "/g-x/a", "/g/-x/a", "/g.v/a", "/ga/a", "/g/a/a")
 }
 
 // c11Judge executes one program both ways and compares. kind is the finding key.
@@ -400,6 +400,17 @@ func c11Programs(thorough bool) [][]c11Node {
 						[]c11Node{{Kind: "group", Path: pf, NH: 1, Children: []c11Node{g2, sib}}},
 						[]c11Node{{Kind: "group", Path: pf, NH: 1, Children: []c11Node{sib, g2}}})
 				}
+			}
+		}
+	}
+	// group and route path fragments that do not start with a slash continue the enclosing scope's last
+	// segment (plain concatenation)
+	for _, gp := range []string{"/g", "/{p}"} {
+		for _, frag := range []string{"-x", ".{e}", "a"} {
+			for _, lf := range []string{"get", "any", "combo", "routes-comma"} {
+				progs = append(progs,
+					[]c11Node{{Kind: "group", Path: gp, NH: 1, Children: []c11Node{{Kind: lf, Path: frag, NH: 1}}}},
+					[]c11Node{{Kind: "group", Path: gp, NH: 0, Children: []c11Node{{Kind: "group", Path: frag, NH: 1, Children: []c11Node{{Kind: lf, Path: "/a", NH: 1}}}}}})
 			}
 		}
 	}
